@@ -68,7 +68,11 @@ struct FindGlobalConstVars<'a> {
 impl<'a> Visitor<Diagnostic> for FindGlobalConstVars<'a> {
     type Value = ();
     fn visit_var_decl(&mut self, node: &VarDecl) -> Result<Self::Value, Diagnostic> {
-        if node.qualifier == DeclarationQualifier::Constant {
+        // Only global variables matter: a constant that is local to some other
+        // function or program says nothing about the global having the same name.
+        if node.var_type == VariableType::Global
+            && node.qualifier == DeclarationQualifier::Constant
+        {
             match &node.identifier {
                 VariableIdentifier::Symbol(name) => {
                     self.global_consts.insert(name.clone());
